@@ -57,6 +57,23 @@ fn split_tcp(buf: &mut Vec<u8>, raw: &mut bool) -> Vec<Vec<u8>> {
         }
         if *raw || buf[0] == 0xFE {
             *raw = true;
+            // the same legacy ping several times over (a client that timed out and asked again before this thread was
+            // scheduled): one request per copy, as the server would have seen them
+            const V1_6: [u8; 20] = [0xFE, 0x01, 0xFA, 0x00, 0x07, 0x00, 0x47, 0x00, 0x61, 0x00, 0x6D, 0x00, 0x65, 0x00, 0x44, 0x00, 0x69, 0x00, 0x67, 0x00];
+            let mut copies = false;
+            for lit in [&V1_6[.. 19], &[0xFE, 0x01][..], &[0xFE][..]] {
+                if buf.len() >= 2 * lit.len() && buf.len() % lit.len() == 0 && buf.chunks(lit.len()).all(|c| c == lit) {
+                    for c in buf.chunks(lit.len()) {
+                        out.push(c.to_vec());
+                    }
+                    buf.clear();
+                    copies = true;
+                    break;
+                }
+            }
+            if copies {
+                break;
+            }
             // legacy ping: everything available is one request
             out.push(std::mem::take(buf));
             break;
